@@ -587,7 +587,7 @@ func vC15JudgeRouting(c *vh.Case, n *vDNet, res *vDRes, localW, localL []byte, l
 		switch {
 		case res.ConnAtEnd:
 			c.Check(res.Err == nil, "findpeer-success-when-reached", "the peer is connected after FindPeer but the call failed: %v", res.Err)
-			{
+			if len(op.GrowAfterFirstRead) == 0 { // (the directed case feeds the peerstore itself after the first read: only the exact union is judged)
 				want := map[string]bool{}
 				for _, a := range res.PSAtEnd {
 					want[string(a.Bytes())] = true
@@ -707,8 +707,8 @@ func vC15LogOp(c *vh.Case, n *vDNet, i int, res *vDRes) {
 
 func TestVerif_C15_routing(t *testing.T) {
 	vh.Run(t, vh.Spec{Prop: "C15", Unit: "routing", Quick: 400, Thorough: 16000, CostMs: 25,
-		Rule: "one fake host shared by the WAN and LAN IpfsDHT of dual.New, two simulated networks told apart by the protocol list given to the message-sender builder; PRNG networks (WAN 0-55 peers, LAN 0-19, optional overlap; K in {2,3,5,8,20}, alpha in {1,2,3,10}; each table empty in ~1/3 of the cases; 0-100% failing peers per network by dial/request/silence; latencies 5/50/400 ms per network deciding which DHT answers first; value records valid/invalid/mis-keyed/empty and provider records spread over both networks and both local stores); 4-6 operations per case drawn from Provide (in every second case a third of them with announce=false: local record only, on the DHT the write is routed to), PutValue, GetValue, SearchValue, FindPeer, FindProvidersAsync (1/8 cancelled at a PRNG instant), each judged against the WAN/LAN table sizes read at call time and the two wire logs; failed seeds leave the tables so that later operations of a case see other emptiness combinations; non-trivial = at least one judged write and one judged read with RPCs on some network; distinct by (table emptiness, operation, outcome) sequence",
-		Clauses: []string{"write-routed-by-wan-table", "store-rpcs-on-active-network", "write-reaches-active-network", "write-both-empty-lookup-failure", "write-local-on-active", "no-announce-no-rpc",
+		Rule: "one fake host shared by the WAN and LAN IpfsDHT of dual.New, two simulated networks told apart by the protocol list given to the message-sender builder; PRNG networks (WAN 0-55 peers, LAN 0-19, optional overlap; K in {2,3,5,8,20}, alpha in {1,2,3,10}; each table empty in ~1/3 of the cases; 0-100% failing peers per network by dial/request/silence; latencies 5/50/400 ms per network deciding which DHT answers first; value records valid/invalid/mis-keyed/empty and provider records spread over both networks and both local stores); 4-6 operations per case drawn from Provide (in every second case a third of them with announce=false: local record only, on the DHT the write is routed to), PutValue, GetValue, SearchValue, FindPeer, FindProvidersAsync (1/8 cancelled at a PRNG instant), each judged against the WAN/LAN table sizes read at call time and the two wire logs; every fifth case ends with a directed FindPeer during which 1-3 further addresses of the target enter the peerstore between the two inner reads (partly overlapping inner answers: the result is their union); failed seeds leave the tables so that later operations of a case see other emptiness combinations; non-trivial = at least one judged write and one judged read with RPCs on some network; distinct by (table emptiness, operation, outcome) sequence",
+		Clauses: []string{"write-routed-by-wan-table", "store-rpcs-on-active-network", "write-reaches-active-network", "write-both-empty-lookup-failure", "write-local-on-active", "no-announce-no-rpc", "findpeer-union-partial-overlap",
 			"getvalue-wan-first", "getvalue-lan-fallback", "getvalue-lan-fallback-on-wan-timeout", "getvalue-none-combined-error", "getvalue-best-of-source", "searchvalue-sound", "searchvalue-improving",
 			"findpeer-union", "findpeer-union-exact", "findpeer-combined-error", "findpeer-no-duplicate-addresses", "findprovs-once-each", "findprovs-at-most-count", "findprovs-sound", "findprovs-count0-complete"}},
 		func(c *vh.Case) {
@@ -773,6 +773,39 @@ func TestVerif_C15_routing(t *testing.T) {
 					wanRPCs := len(vC15Requests(vDSince(n.W.Log(), res.W0)))
 					c.Check(res.Err == nil && bytes.Equal(res.Val, val), "getvalue-lan-fallback-on-wan-timeout", "LAN holds a valid local record (LAN table empty: it answers at once), the WAN lookup (%d requests, all peers silent) ran into the caller's deadline of %v: GetValue returned %q, %v instead of the LAN value", wanRPCs, res.Op.CancelAt, res.Val, res.Err)
 					vC15LogOp(c, n, nops, res)
+					res.Keep()
+					n.Settle()
+				}
+				// directed: FindPeer whose two inner answers overlap only partly. Both inner DHTs answer from the one
+				// peerstore of the host, so their answers differ when addresses arrive between the two reads; here 1-3
+				// further addresses arrive right after the first read. The answer is the union, whatever the order in which
+				// the peerstore lists them.
+				if c.Idx%5 == 4 && len(w.targets) > 0 {
+					synctest.Wait()
+					t := w.targets[c.R.Intn(len(w.targets))]
+					var have, grow []ma.Multiaddr
+					for i := 0; i < 2+c.R.Intn(2); i++ {
+						have = append(have, n.U.Gen([]string{"pub4", "pub4quic", "rfc1918-10", "rfc1918-192"}[c.R.Intn(4)]))
+					}
+					for i := 0; i < 1+c.R.Intn(3); i++ {
+						grow = append(grow, n.U.Gen([]string{"pub4", "rfc1918-10", "rfc1918-172", "glob6"}[c.R.Intn(4)]))
+					}
+					n.H.Peerstore().AddAddrs(t, have, time.Hour)
+					if c.R.Intn(4) != 0 {
+						// connected target: both inner DHTs answer from the peerstore at once (FindLocal), in either order
+						n.H.Net.AddConn(t, network.DirOutbound, nil, false)
+					}
+					res := n.Run(vDOp{Kind: "findpeer", Target: t, Quorum: -1, CancelAt: -1, GrowAfterFirstRead: grow})
+					c.Obs("directed_findpeer_inner_reads", len(res.InnerReads))
+					for i, rd := range res.InnerReads {
+						c.Logf("directed findpeer: inner read %d: %v", i, vDAddrStrings(rd))
+					}
+					c.Logf("directed findpeer: returned %v err=%v", vDAddrStrings(res.Info.Addrs), res.Err)
+					if len(res.InnerReads) == 2 && len(res.InnerReads[1]) > len(res.InnerReads[0]) && len(res.InnerReads[0]) > 0 {
+						c.Clause("findpeer-union-partial-overlap")
+					}
+					vC15JudgeRouting(c, n, res, nil, nil, nil)
+					vC15LogOp(c, n, nops+1, res)
 					res.Keep()
 					n.Settle()
 				}
